@@ -67,6 +67,8 @@ type Exec struct {
 	Notes         []string
 	coro          *coroSched
 	pendingBinds  []Val
+	keepRets      bool
+	lastRets      []retRec
 	SplitIdx      int
 	FoldQueries   int
 	LogCalls      bool
@@ -294,6 +296,9 @@ func (x *Exec) runFunction(st *State, fn *ssa.Function, args []Val, binds []Val)
 	if len(rets) == 0 {
 		return nil, nil
 	}
+	if x.keepRets && depth == 1 {
+		x.lastRets = rets
+	}
 	// merge return states
 	res := rets[len(rets)-1]
 	out := res.st
@@ -339,6 +344,10 @@ func (x *Exec) mergeStates(c *T, a, b *State, nframes int) *State {
 	out.Alloc = maxAlloc(c, a.Alloc, b.Alloc)
 	for i := 0; i < nframes && i < len(a.Frames) && i < len(out.Frames); i++ {
 		fa, fo := a.Frames[i], out.Frames[i]
+		if fa == b.Frames[i] {
+			out.Frames[i] = fa // shared, unchanged
+			continue
+		}
 		for k, va := range fa.Regs {
 			if vb, ok := fo.Regs[k]; ok {
 				fo.Regs[k] = iteVal(c, va, vb)
